@@ -74,7 +74,11 @@ class MessageHandler(Virtual):
         if match is None:
             return False
 
-        message_num = int(match.groups()[0])
+        try:
+            message_num = int(match.groups()[0])
+        except ValueError:
+            # Thousands of digits: over Python's integer string conversion limit.
+            return False
         if message_num < 1:
             return False
 
